@@ -1,0 +1,86 @@
+//go:build verif
+
+package kfake
+
+import (
+	"net"
+
+	"github.com/twmb/franz-go/pkg/kmsg"
+)
+
+// This file exists only in builds with the `verif` tag. It lets an external
+// verification harness evaluate kfake's ACL decision functions on ACL sets
+// built from plain values, without SASL round trips. Nothing here changes
+// cluster behavior.
+
+// VerifACL mirrors the unexported acl struct with plain values.
+type VerifACL struct {
+	Principal    string
+	Host         string
+	ResourceType int8
+	Name         string
+	Pattern      int8
+	Operation    int8
+	Permission   int8
+}
+
+// VerifACLEnv is the part of a Cluster that the ACL glue reads
+// (cfg.enableACLs, cfg.superusers, acls).
+type VerifACLEnv struct{ c *Cluster }
+
+// VerifNewACLEnv builds the ACL-relevant cluster state. A nil superusers
+// slice leaves cfg.superusers nil, as NewCluster does without Superuser opts.
+func VerifNewACLEnv(enableACLs bool, superusers []string, acls []VerifACL) *VerifACLEnv {
+	c := &Cluster{}
+	c.cfg.enableACLs = enableACLs
+	if superusers != nil {
+		c.cfg.superusers = make(map[string]struct{})
+		for _, s := range superusers {
+			c.cfg.superusers[s] = struct{}{}
+		}
+	}
+	for _, a := range acls {
+		c.acls.acls = append(c.acls.acls, acl{
+			principal:    a.Principal,
+			host:         a.Host,
+			resourceType: kmsg.ACLResourceType(a.ResourceType),
+			resourceName: a.Name,
+			pattern:      kmsg.ACLResourcePatternType(a.Pattern),
+			operation:    kmsg.ACLOperation(a.Operation),
+			permission:   kmsg.ACLPermissionType(a.Permission),
+		})
+	}
+	return &VerifACLEnv{c}
+}
+
+type verifConn struct {
+	net.Conn
+	remote net.Addr
+}
+
+func (v verifConn) RemoteAddr() net.Addr { return v.remote }
+
+func verifReq(user string, remote net.Addr) *clientReq {
+	return &clientReq{cc: &clientConn{user: user, conn: verifConn{remote: remote}}}
+}
+
+// Allowed is Cluster.allowedACL for a request of the given authenticated
+// user ("" = unauthenticated) arriving from the given remote address.
+func (e *VerifACLEnv) Allowed(user string, remote net.Addr, resource string, resourceType, op int8) bool {
+	return e.c.allowedACL(verifReq(user, remote), resource, kmsg.ACLResourceType(resourceType), kmsg.ACLOperation(op))
+}
+
+// AnyAllowed is Cluster.anyAllowedACL.
+func (e *VerifACLEnv) AnyAllowed(user string, remote net.Addr, resourceType, op int8) bool {
+	return e.c.anyAllowedACL(verifReq(user, remote), kmsg.ACLResourceType(resourceType), kmsg.ACLOperation(op))
+}
+
+// AllowedRaw is clusterACLs.allowed.
+func (e *VerifACLEnv) AllowedRaw(principal, host, resource string, resourceType, op int8) bool {
+	return e.c.acls.allowed(principal, host, resource, kmsg.ACLResourceType(resourceType), kmsg.ACLOperation(op))
+}
+
+// AnyAllowedRaw is clusterACLs.anyAllowed.
+func (e *VerifACLEnv) AnyAllowedRaw(principal, host string, resourceType, op int8) bool {
+	return e.c.acls.anyAllowed(principal, host, kmsg.ACLResourceType(resourceType), kmsg.ACLOperation(op))
+}
